@@ -91,4 +91,25 @@ PROPS = {
         "exhaustive": {"quick": True, "thorough": True},
         "floor": {"quick": 16000, "thorough": 1000000},
     },
+    "C10": {
+        "modes": ["dbg"],
+        "level": "exploration",
+        "technique": "runtime monitoring: event log of application callbacks compared element-wise with the by-construction rectangle list of generated fast-path streams (stamped payloads), through RdpClient::read over TLS, the plain stack, and global::Client::read directly",
+        "level_text": "Generated fast-path output streams (1..20 PDUs, 0..8 updates each, 0..12 rectangles per bitmap update, 13 kinds of non-bitmap updates including unknown codes and a malformed pointer, short and long length forms, uncompressed / compressed with and without the compression header, data lengths at 0,1,2,7,8,9 and up to what the enclosing length fields allow, zero-length rectangles and updates followed by more) are fed to a client in the active state; the sequence of bitmap events received by the callback must equal the specified rectangle list in count, order, every field and every data byte. Thorough covers every fast-path total length 2..32767.",
+        "level_note": "Trusted: the fast-path builder in refs::proto (MS-RDPBCGR 2.2.9.1.2). Only well-formed, unfragmented, uncompressed-at-update-level streams are generated (as the client's capabilities negotiate); malformed streams belong to C06.",
+        "rule": ("cases = sequences of fast-path PDUs; a case is non-trivial when it contains at least one rectangle; distinct = hash of the case descriptor; evidence counts PDUs and rectangles compared."),
+        "assumptions": [],
+        "floor": {"quick": 10000, "thorough": 300000},
+    },
+    "C11": {
+        "modes": ["dbg"],
+        "level": "exploration",
+        "technique": "runtime monitoring: submission log vs input PDUs strictly decoded by the reference server after every RdpClient::write (one-to-one, in order, field-exact), interleaved with server traffic",
+        "level_text": "Events are submitted through the real RdpClient::write on an active session over TLS; after each call the frames the reference server received are decoded strictly and must be exactly one input PDU with one event carrying the submitted coordinates / scancode and the flag combination for the button and press state, with the negotiated initiator, channel and share id (server-assigned ids are generated). Every x, every y and every scancode in 0..65535 is submitted at least once in both tiers; random sequences repeat coordinates, use extended scancodes, interleave fast-path and slow-path server traffic and offer an unsendable event kind (must be refused with zero bytes written).",
+        "level_note": "Trusted: refs::proto input PDU parser; flag mapping from MS-RDPBCGR 2.2.8.1.1.3.1.1.3/.1.1.1 (button None = PTRFLAGS_MOVE, DOWN bit unconstrained on a move).",
+        "rule": ("cases = event sequences on one session (sweep slices of 4096 values; random sequences of 1..200 operations); all non-trivial; distinct = hash of the case descriptor; evidence counts events submitted."),
+        "assumptions": [],
+        "exhaustive": {"quick": True, "thorough": True},
+        "floor": {"quick": 1000, "thorough": 20000},
+    },
 }
